@@ -1,4 +1,5 @@
 import DateutilVerif.Properties.C05
+#print axioms C05.mem_pre_iff
 #print axioms C05.fromutc_spec
 #print axioms C05.exists_of_preimage
 #print axioms C05.preimage_of_exists
